@@ -140,6 +140,10 @@ def gen_bad(rng, st, spaces):
         return ["set_value", s, rng.choice(W.CELLS), 1, None]                                # None not allowed
     if r == 7:
         return ["set_ref", s, rng.choice(W.CELLS + W.CHILD), 3]                              # name clash
+    if r == 8 and rng.random() < 0.5:
+        # no usable explicit name: the name would come from the def (it may start with an underscore)
+        nm = rng.choice(["_tmp", "__d__", "_f"])
+        return ["new_cells_src", s, rng.choice([None, "_bad", "1x"]), "def %s(x): return x" % nm]
     return ["rename_cells", s, rng.choice(W.CELLS), rng.choice(["for", "_y", "r", "X"])]
 
 
@@ -468,7 +472,7 @@ def replay_struct(payload, out, hooks_factory, cfg):
         run_one(ops_from_json(h), out, collections.Counter(), hooks_factory(), cfg)
 
 
-EDIT_KINDS = ("set_param", "new_space", "del_space", "rename_space", "new_cells", "set_formula", "set_cached", "del_cells",
+EDIT_KINDS = ("new_cells_src", "set_param", "new_space", "del_space", "rename_space", "new_cells", "set_formula", "set_cached", "del_cells",
               "rename_cells", "add_bases", "remove_bases", "set_ref", "del_ref", "set_mref", "del_mref",
               "set_value", "clear", "clear_all", "clear_at", "allow_none")
 
@@ -530,6 +534,8 @@ MOTIFS = [
 
 
 def motif(rng, weights=None):
+    if weights:
+        weights = list(weights) + [1] * (len(MOTIFS) - len(weights))
     m = rng.choices(MOTIFS, weights)[0] if weights else rng.choice(MOTIFS)
     return [list(o) for o in m]
 
@@ -550,6 +556,7 @@ def single_edits(live):
                 edits.append(["del_cells", path, cn])
                 edits.append(["rename_cells", path, cn, "k" if cn != "k" else "h"])
             edits.append(["set_value", path, cn, 1, 40 + n])
+            edits.append(["clear", path, cn])
         for rn in s._own_refs:
             if not s._impl.own_refs[rn].is_derived():
                 edits.append(["set_ref", path, rn, 30 + n])
@@ -561,9 +568,12 @@ def single_edits(live):
                 edits.append(["set_ref", path, rn, 50])
         for b in s._direct_bases:
             edits.append(["remove_bases", path, [W.rel(live.m, b)]])
-        for other in paths:
-            if other != path and other not in [W.rel(live.m, b) for b in s._direct_bases]:
-                edits.append(["add_bases", path, [other]])
+        cand = [o for o in paths if o != path and o not in [W.rel(live.m, b) for b in s._direct_bases]]
+        for other in cand:
+            edits.append(["add_bases", path, [other]])
+        for i in range(len(cand)):
+            for j in range(i):
+                edits.append(["add_bases", path, [cand[i], cand[j]]])     # two bases, not in creation order
         edits.append(["del_space", path])
         edits.append(["set_param", path, 1 if s.formula is None else 0])
         for cn, c in s.cells.items():
@@ -599,9 +609,20 @@ def enumerate_edits(ctx, out, prop, hooks_factory, cfg, stats, quick_per_motif=1
             close_all()
         rng = ctx.rng("enum", prop, mi)
         chosen = edits if ctx.tier == "thorough" else rng.sample(edits, min(len(edits), quick_per_motif))
+        chosen = chosen + [e for e in edits if e[0] in cfg.get("enum_always", ()) and e not in chosen]
         seqs = [[e] for e in chosen]
         for _ in range(pairs_per_motif * (4 if ctx.tier == "thorough" else 1)):
             seqs.append([rng.choice(edits), ["evalall"], rng.choice(edits)])
+        # structured pairs: a value edit / clear of one element, then a reference or base edit
+        first = [e for e in edits if e[0] in ("set_value", "clear")]
+        second = [e for e in edits if e[0] in ("set_ref", "del_ref", "set_mref", "remove_bases", "add_bases", "new_space")]
+        if first and second:
+            allpairs = [[a, b] for a in first for b in second]
+            for pr in (allpairs if ctx.tier == "thorough" else rng.sample(allpairs, min(len(allpairs), 10))):
+                seqs.append(pr)
+        # a base edit followed by an unrelated structural edit (orders must survive graph copies)
+        for e in [e for e in edits if e[0] == "add_bases" and len(e[2]) == 2][:(99 if ctx.tier == "thorough" else 4)]:
+            seqs.append([e, ["new_space", "-", "D" if not any(p == "D" for p in [x[2] for x in m if x[0] == "new_space"]) else "B", []]])
         for seq in seqs:
             ops = [list(o) for o in prefix] + [list(o) for o in seq] + [["evalall"]]
             sub = core.Outcome()
